@@ -13,25 +13,25 @@ CLAIMS = {
     "C14": ("dominance/path analysis over go/ssa of the cutting-planes search loop: top-level binding protocol of learned literals (retract, bind, conclude Unsat on conflict, rebuild the heap) in every search loop, failure sentinel of the analyser leads to Unsat, learned constraint recorded as reason, drop-implies-unwatch, growth of the per-variable buffers; boundedness evidence for backward walks over the trail in the conflict analysers; degree bookkeeping of the cancelling addition (min / abs recognised by their bodies); lower bound of bounded trail walks; full-range single-exit loop of the pseudo-boolean unwatcher",
             "Decides only the structural clauses of the pseudo-boolean search loop (it treats learned facts, reasons, deletions and buffers as the clause-learning loop does). Of the arithmetic of the strategy only the degree update of the cancelling addition is decided; weakening, division, slack and backjump level (that learned constraints are implied and answers unchanged) are NOT decided; most conceivable defects of the strategy are of that kind. One failure mode is structural and reported: the unbounded backward walk over the trail in cuttingPlanes (open known finding D30: the strategy panics on small inputs).",
             "DESIGN.md section 5, C14"),
-    "C02": ("precondition discharge for the panicking constraint constructors at every reachable call site (difference-bound reasoning over dominating branch facts, lifted through wrappers); scan-accounting analysis of every cursor<bound loop (each trip advances, shrinks or leaves); algebraic identities of the normalisers GtEq/LtEq/AtMost/AtMost1/Eq/Exactly1 by linear forms; justification analysis of the true exits of the pseudo-boolean propagation function; path evidence that list elements are bound at the top level only after their status was consulted",
+    "C02": ("precondition discharge for the panicking constraint constructors at every reachable call site (difference-bound reasoning over dominating branch facts, lifted through wrappers); scan-accounting analysis of every cursor<bound loop (each trip advances, shrinks or leaves); algebraic identities of the normalisers GtEq/LtEq/AtMost/AtMost1/Eq/Exactly1 by linear forms; justification analysis of the true exits of the pseudo-boolean propagation function; path evidence that list elements are bound at the top level only after their status was consulted; continuation of the watcher-replacement loop of cardinality constraints; removing methods in the scan accounting",
             "Decides that trivially true/false constraints are handled rather than rejected in both constraint front-ends, that the parse-time simplifiers account for every literal exactly once, and that the normalisers perform the stated sign/degree bookkeeping. Necessary conditions; slack propagation and watch maintenance are not decided. Later clauses: a PB propagation step answers true only when satisfied / all propagated / watches updated; forced literals are bound only when not already false (defect D26, repaired).",
             "DESIGN.md section 5, C02"),
-    "C13": ("reachable-panic classification from the four text parsers with precondition discharge (E8) and a frozen table of malformed-input panics; operator-token dataflow in the OPB line parser (accepted set and dispatch); truth-table comparison of the duplicated WCNF hard/soft predicate; normaliser identities shared with C02; line-skip condition analysis of the line readers; variable-count coverage of the OPB term reader and header (the count follows the magnitude of the literal read); terminator discipline of the DIMACS readers; provenance of the weight list handed to the cost function by the MAXSAT front-ends",
+    "C13": ("reachable-panic classification from the four text parsers with precondition discharge (E8) and a frozen table of malformed-input panics; operator-token dataflow in the OPB line parser (accepted set and dispatch); truth-table comparison of the duplicated WCNF hard/soft predicate; normaliser identities shared with C02; line-skip condition analysis of the line readers; variable-count coverage of the OPB term reader and header (the count follows the magnitude of the literal read); terminator discipline of the DIMACS readers; provenance of the weight list handed to the cost function by the MAXSAT front-ends; whole-line reading, full token traversal and scanner-error discipline of the readers (found defect D31 in ParseWCNF, repaired)",
             "Decides that no explicit panic is reachable from the parsers on grounds other than malformed input, that >= and = (and only those) are dispatched to their normalisers, that the two copies of the WCNF hard/soft predicate agree, and that the normalisers are the stated identities. That the parsed problem has the models of the text is not decided. Later clauses: only whole-line tests make a reader skip a line; objective variables and the declared `#variable=` count reach NbVars (defect D18, repaired); both DIMACS readers close clauses at the terminator (defects D20, repaired).",
             "DESIGN.md section 5, C13"),
-    "C15": ("control-equivalence analysis in DetectAtMostOne (what is queued for removal is exactly what a constraint was added for), exit-edge analysis of the clause copy loop, linear-form and precondition check of the added constraint's degree; found-flag reset, absolute-index comparison, parallel-list pairing, per-iteration allocation of the constraint's literal slice",
+    "C15": ("control-equivalence analysis in DetectAtMostOne (what is queued for removal is exactly what a constraint was added for), exit-edge analysis of the clause copy loop, linear-form and precondition check of the added constraint's degree; found-flag reset, absolute-index comparison, parallel-list pairing, per-iteration allocation of the constraint's literal slice; position agreement of reads from the paired clause-index list",
             "Decides removal soundness of at-most-one detection (nothing removed unless replaced, everything else retained, degree len-1). The clique search itself is not decided.",
             "DESIGN.md section 5, C15"),
     "C03": ("sibling comparison (engine E7: fact sets over a bisimulation-style partition refinement of the SSA def-use graphs) of Optimal and Minimize; dominance analysis of the model snapshot; guard->constant tables of the results; linear-form check of the strengthening step (degree = maxCost - cost + 1, cost over true cost literals, stop at 0); length-origin comparison of slices sorted in parallel; coverage of objective variables by the declared variable count; provenance of the cost-weight lists (no nil in place of a list); dispatch condition of AppendClause for a forced constraint",
             "Decides that both optimisation entry points compute the same strengthening constraint from the same quantities, that this constraint is the stated one, that results are built from the snapshot the cost was computed on, and that the constant results are returned under the stated conditions. Necessary conditions; optimality itself is not decided. Later clauses: slices sorted in parallel have the length of the same list (defect D19, repaired); objective variables are counted; shared clauses of C02/C09 about forced literals and PB propagation (defect D26, repaired).",
             "DESIGN.md section 5, C03"),
-    "C05": ("sibling comparison (engine E7) of Enumerate and CountModels including the 2^k counts; non-emptiness evidence for every last-element access reachable from them (dominating length tests, call-site guards); watched-position and ordering check of the clause that blocks a found model",
+    "C05": ("sibling comparison (engine E7) of Enumerate and CountModels including the 2^k counts; non-emptiness evidence for every last-element access reachable from them (dominating length tests, call-site guards); watched-position and ordering check of the clause that blocks a found model; restart retraction before the search is re-entered (in the loop or in every re-entering caller); allocation dominance of copies into the last model",
             "Decides that counting and enumeration perform the same blocking step and that the trail/decision accesses they reach cannot index an empty slice. Necessary conditions; exactness of the count in general is not decided. Later clause: the blocking clause of a model watches its two deepest decisions (defect D22 - over-counting - repaired; its root cause is this structural clause).",
             "DESIGN.md section 5, C05"),
     "C11": ("type-flow analysis over go/ssa for dispatch exhaustiveness (every Formula type handled wherever formulas are switched on); identity/absorbing-element check of the n-ary connectives' constant folding against Eval; duality table of not.nnf; symbolic truth-table evaluation of the derived connectives' syntax trees; guard-coverage check of the definitional CNF; path exploration of the operand loops of the n-ary normal forms; status evidence for the nil model; helper-variable provenance of exported constructors; numbering discipline of the clause translation (both tables in one step; no empty result after numbering)",
             "Decides structural clauses of the formula translation: exhaustive dispatch, right neutral elements (empty And/Or), De Morgan duality, truth tables of Implies/Eq/Xor, every clause of a guarded conjunct carries the guard. Necessary conditions; the exactly-one encoding and the translation as a whole are not decided. Later clauses: an operand is dropped only when it is a constant; no model is reported only when the solver says so; exported constructors do not embed helper variables in the formula (violated by Unique over five or more variables: open known finding D28).",
             "DESIGN.md section 5, C11"),
-    "C12": ("def-use analysis over go/ssa of the DIMACS exporter: header variable count = size of the map every handed-out index is recorded in, header clause count = length of the slice written one line per element; plus the translation rules of C11; flag analysis of the name comments and of helper registration; helper-variable provenance of exported constructors; numbering discipline of the clause translation shared with C11",
+    "C12": ("def-use analysis over go/ssa of the DIMACS exporter: header variable count = size of the map every handed-out index is recorded in, header clause count = length of the slice written one line per element; plus the translation rules of C11; flag analysis of the name comments and of helper registration; helper-variable provenance of exported constructors; numbering discipline of the clause translation shared with C11; no scratch slice kept in the numbering tables",
             "Decides well-formedness clauses of the export (header counts, every literal from the index allocator) and the translation clauses shared with C11. Model equivalence is not decided. Later clauses: names are collected only for non-helper variables, helper indices are registered under helper keys; open known finding D28 (shared with C11).",
             "DESIGN.md section 5, C12"),
     "C17": ("table extraction from the recursive-descent parser (AST + types + SSA dominance): operator token, constructor, left/right operand callee per level, ordered by the call chain from Parse; end-of-input dominance check; error=>nil-formula fixpoint over the parser methods; consume-then-parse ordering analysis (end of input tested between a consumed token and the next operand); scanner configuration audit; dominance of the operator / closing-parenthesis tests over the construction of a variable; grammar model over (function, parameter bindings) with delegation collapsing",
@@ -43,22 +43,22 @@ CLAIMS = {
     "C19": ("table extraction from main.go over go/ssa: suffix->parser/printer dispatch, status->answer-line tables by constant propagation of solver.Status, error-edge->non-zero-exit path analysis, argument types of stdout prints, drain analysis of result channels (also through a starter that returns the channel), provenance of opened file names from the command line, condition set of the objective line, streaming producers started with go",
             "Decides the glue tables of the command line tool (dispatch, answer lines per status, error exits without answer line, no struct dumps, channels drained). Truthfulness of what is printed rests on the other properties.",
             "DESIGN.md section 5, C19"),
-    "C04": ("path-sensitive typestate over go/ssa (raw/trimmed result cells refined by Status tests) for every Interface.Optimal wrapper; path-sensitive symbolic check of the relaxation built by maxsat.New (nil-ness of coefficient slice, degree facts); control-dependence check of the projection filter",
+    "C04": ("path-sensitive typestate over go/ssa (raw/trimmed result cells refined by Status tests) for every Interface.Optimal wrapper; path-sensitive symbolic check of the relaxation built by maxsat.New (nil-ness of coefficient slice, degree facts); control-dependence check of the projection filter; coefficient provenance in the constraint constructors of package maxsat; every constraint reaches the build call",
             "Decides on every path that results of the inner solver leave the MaxSAT solver only with the relaxation variables cut off, that a soft constraint's blocking literal gets the degree as coefficient, and that only named variables enter the returned model. Necessary conditions; minimality of the cost is not decided.",
             "DESIGN.md section 5, C04"),
     "C07": ("whole-program storage-distance (ownership) analysis over go/ssa with the receiver of every extraction method of *explain.Problem protected; error-discipline analysis (error tested before the co-result is dereferenced, propagated as nil+error); evidence analysis of every success return (unsatisfiability evidence, minimising scheme); who-may-write analysis of the unit bindings; round protocol of Assume shared with C10; terminator discipline of the DIMACS reader of package explain; sign table of recorded unit bindings; degree bookkeeping of the merge of repeated variables in AppendClause (MUSInsertion hands clauses as written)",
             "Decides that no store reachable from a MUS / unsat-subset method goes into storage that may belong to the caller's problem (scratch fields and deferred-restore growth excepted) and that sub-extraction errors are checked and propagated. Necessary conditions of \"the caller's problem is left unchanged\" and \"an error is returned instead\"; unsatisfiability and minimality of the result in general are not decided. Later clauses: a (problem, nil) return rests on a status equal to Unsat / a minimisation returning -1 / a valid certificate / the deletion loop, and a MUS* method returns a set that went through a minimising scheme (defect D27 in MUSMaxSat, repaired); the reader closes clauses at the terminator (defect D20, repaired).",
             "DESIGN.md section 5, C07"),
-    "C01": ("finite-domain range analysis of solver.Status over go/ssa with branch refinement at Solve's returns; store-implies-watch and drop-implies-unwatch pairing on the clause database; freshness of the published model; path analysis of the decision function (exhaustion only on an empty queue), full-range check of the analyser's constraint scans, restart-after-binding and reason-locking pairing in the search loops, swap-remove accounting of the parse-time scans; re-queueing discipline of the retraction function and watcher conservation of the watch-list compaction loops (path exploration per iteration)",
+    "C01": ("finite-domain range analysis of solver.Status over go/ssa with branch refinement at Solve's returns; store-implies-watch and drop-implies-unwatch pairing on the clause database; freshness of the published model; path analysis of the decision function (exhaustion only on an empty queue), full-range check of the analyser's constraint scans, restart-after-binding and reason-locking pairing in the search loops, swap-remove accounting of the parse-time scans; re-queueing discipline of the retraction function and watcher conservation of the watch-list compaction loops (path exploration per iteration); guard of the model accessor; whole-line reading of the DIMACS reader",
             "Decides on every path that Solve answers only Sat or Unsat, that every clause stored is watched and every clause dropped is unwatched by the same function, and that the published model is a fresh copy. Necessary conditions; correctness of verdict and model is not decided. Later clauses: the decision function reports `no variable left` only after finding the queue empty; conflict analysis reads constraints whole; a restart happens only after the pending literal is bound; reasons are locked; a lone terminator closes an empty clause.",
             "DESIGN.md section 5, C01"),
     "C10": ("ordering (dominance) analysis over go/ssa of the round protocol of Solver.Assume: retraction before installation, status reset before propagation, binding+flag+trail triple per literal, propagate(0,1) on every path; constant-argument check of every call of the level-retraction function; re-installation analysis of recorded unit clauses after a wholesale retraction; origin classification of every level-1 binding; no constant-level test in assumption-aware conflict analysis; re-queueing on retraction and watcher conservation (shared with C01)",
             "Decides the round protocol of Assume on every path that a wholesale retraction of level 1 is followed by the re-installation of every recorded unit clause, that unit clauses bound from outside lists are recorded, that an assumption is bound only after being found not false, and that learned clauses never drop literals because they are bound at level 1. Necessary conditions; correctness of each round's answer is not decided. Defect D7 (Assume lost the problem's unit clauses) is repaired; no open finding.",
             "DESIGN.md section 5, C10"),
-    "C08": ("dominance and path analysis over go/ssa of the certificate checker: acceptance of a line dominated by the successful RUP test of the same value, deferred restoration and tag initialisation in the entry block, save/restore pairing of the unit bindings on every return path, tagging on every propagation/conflict path, sibling comparison of the two readers; who-may-write analysis of the unit bindings; skip-condition analysis of the propagation loop; evidence analysis of the success returns of the subset extraction; sign table of recorded unit bindings (the RUP test has the opposite one); propagation core located structurally, writes through table-taking helpers charged to the caller",
+    "C08": ("dominance and path analysis over go/ssa of the certificate checker: acceptance of a line dominated by the successful RUP test of the same value, deferred restoration and tag initialisation in the entry block, save/restore pairing of the unit bindings on every return path, tagging on every propagation/conflict path, sibling comparison of the two readers; who-may-write analysis of the unit bindings; skip-condition analysis of the propagation loop; evidence analysis of the success returns of the subset extraction; sign table of recorded unit bindings (the RUP test has the opposite one); propagation core located structurally, writes through table-taking helpers charged to the caller; every parsed certificate line reaches the RUP test; full traversal of the token list; scanner error consulted before success",
             "Decides that a line is never accepted without its own RUP test, that what the check changes is restored on every exit, that every clause used is tagged, and that both entry points perform the same steps. Necessary conditions; that the propagation loop equals unit propagation is not decided. Later clauses: unit bindings of an existing problem are written only by the propagation method and the restoring RUP test; the propagation loop skips a clause only when it is marked satisfied.",
             "DESIGN.md section 5, C08"),
-    "C06": ("emission-pairing analysis over go/ssa: every append to the learned-clause store paired with a certificate write of the same clause, dominance of unit emission over top-level binding, path check that the empty clause precedes every Unsat conclusion, effect analysis of Certified-only regions, payload comparison of the stdout and channel forms; shared necessary conditions of RUP: asserting literal gets its reason, analysis reads reasons whole, no restart before the pending literal is bound, reasons are locked",
+    "C06": ("emission-pairing analysis over go/ssa: every append to the learned-clause store paired with a certificate write of the same clause, dominance of unit emission over top-level binding, path check that the empty clause precedes every Unsat conclusion, effect analysis of Certified-only regions, payload comparison of the stdout and channel forms; shared necessary conditions of RUP: asserting literal gets its reason, analysis reads reasons whole, no restart before the pending literal is bound, reasons are locked; provenance of the learned clause (cut from the minimised list); unconditional store in the adder of learned clauses",
             "Decides completeness and neutrality of certificate emission on every path (everything learned is written, the empty clause is written before Unsat is concluded, the flag cannot change solver state, both output forms agree). Necessary for a valid refutation; that each written clause is RUP is not decided.",
             "DESIGN.md section 5, C06"),
     "C09": ("table-agreement analysis over go/ssa: per-variable fields discovered from constructor allocations and Var/Lit indexing, growth sites and ordering checked in every function that raises the variable count; dominance check of announce-before-use; constant-range check of status stores; three-valued bound and constraint-update analysis of AppendClause's scan (followed into a helper); path evidence that forced literals are bound only after their status was consulted; dispatch of AppendClause after the scan: forced only under upper bound == degree, dropped only under a justified outcome (path facts), degree bookkeeping of the merge, full traversal of the unit binder",
@@ -67,7 +67,7 @@ CLAIMS = {
     "C20": ("path-sensitive typestate over go/ssa for the result channel of every solver.Interface method (close-once, guarded sends, last-sent = returned); allocation-freshness analysis of sent slices; forwarder drain analysis; select-around-send discipline; callee summaries carrying `returns the last value sent`; linear-form check of the strengthening step shared with C03 (also its cardinality form)",
             "Decides, on every path of every method implementing solver.Interface, that the result channel is closed exactly once when non-nil, never sent on while nil or after close, that the value returned is the last one sent, that sent slices are fresh, and that the MaxSAT forwarder drains its producer. Consumer-independent necessary conditions; validity and strict improvement of the results are not decided.",
             "DESIGN.md section 5, C20"),
-    "C16": ("whole-program storage-distance (escape/ownership) analysis over go/ssa for package-level state; goroutine hand-over (join) analysis; import audit; close-on-every-return and fresh-slice-per-send clauses shared with C20",
+    "C16": ("whole-program storage-distance (escape/ownership) analysis over go/ssa for package-level state; goroutine hand-over (join) analysis; import audit; close-on-every-return and fresh-slice-per-send clauses shared with C20; options stored before the solver goroutine starts (shared with C19)",
             "Decides, for every function of the four library packages, that no package-level storage is written or handed out (so data-independent uses share no location under any schedule) and that each library goroutine joins before its results are read. Necessary conditions of race freedom, not the agreement of results.",
             "DESIGN.md section 5, C16"),
 }
